@@ -23,7 +23,7 @@ def b2s(x):
 
 
 def s2b(s):
-    return list(s.encode('latin1'))
+    return list(s if isinstance(s, (bytes, bytearray)) else s.encode('latin1'))
 
 
 # ---- contents ---------------------------------------------------------------------------------
@@ -210,6 +210,21 @@ def extra_scenarios(ctx):
     # existing destination is overwritten; output directory already exists with unrelated content
     add({'a.js': 'var a = 1 ;', 'out.js': 'OLD CONTENT THAT IS LONGER THAN THE NEW ONE ...............\n'}, inputs=['a.js'], output='out.js')
     add({'a.js': 'var a = 1 ;', 'out/z.txt': 'keep me', 'out/a.js': 'old'}, inputs=['a.js'], output='out/')
+    # real-world documents of the repository's benchmark corpus: mirrored, in place, bundled
+    bench = os.path.join(vlib.REPO, '_benchmarks')
+    names = ['sample_blogpost.html', 'sample_normalize.css', 'sample_dot.js', 'sample_books.xml', 'sample_gopher.svg',
+             'sample_twitter.json', 'sample_catalog.xml'] + ([] if q else ['sample_fontawesome.css', 'sample_tiger.svg', 'sample_bbc.html'])
+    real = {}
+    for n in names:
+        fp = os.path.join(bench, n)
+        if os.path.exists(fp):
+            real['site/' + n.replace('sample_', '')] = open(fp, 'rb').read()
+    if real:
+        add(real, inputs=['site'], output='public/', r=True)
+        add(real, inputs=['site/'], output='site/', r=True)
+        css = sorted(k for k in real if k.endswith('.css'))
+        if len(css) >= 1:
+            add(real, inputs=css + ['site/normalize.css'], output='all.css', b=True)
     # symbolic links: followed by default, recreated with -p links in sync mode; link to a directory
     lk = {'real/a.js': 'var a = 1 ;', 'real/n.txt': 'n  n', 'src/l.js': ('l', '../real/a.js'), 'src/m.js': 'var m = 2 ;',
           'src/dl': ('l', '../real')}
@@ -349,7 +364,7 @@ def run(ctx):
     for k, S, st, nt in sorted(gen):
         if st == 'ok':
             byshape.setdefault(k, []).append((S, nt))
-    per = 8 if quick else 150
+    per = 8 if quick else 400
     reqs = []
     for k in sorted(byshape):
         lst = byshape[k]
@@ -361,19 +376,19 @@ def run(ctx):
     ngen = len(reqs)
     for sc in extra_scenarios(ctx):
         reqs.append(dict(sc=sc))
+    # pinned witnesses of known findings are rendered in the same TLC run
+    pinned = vlib.known_cases(PID)
+    npin = len(pinned)
+    for c in pinned:
+        reqs.append(dict(sc=dict(tree=tree_from_ident(c['tree']), inv=c['inv'], stdin=s2b(c.get('stdin', ''))), pinned=True))
     scs, dropped = prepare(ctx, reqs, 'main')
     for rq, p in dropped:
+        if rq.get('pinned'):
+            raise vlib.Infra('pinned witness not runnable: %s %s' % (p['unspec'], p['hazard']))
         if 'sc' in rq:
             raise vlib.Infra('driver-built scenario is not determined by the documentation: %s %s' % (p['unspec'], p['hazard']))
-    scs = [s for s in scs if not s['known']]
-    # pinned witnesses of known findings
-    pinned = vlib.known_cases(PID)
-    preqs = [dict(sc=dict(tree=tree_from_ident(c['tree']), inv=c['inv'], stdin=s2b(c.get('stdin', '')))) for c in pinned]
-    pscs = []
-    if preqs:
-        pscs, pdropped = prepare(ctx, preqs, 'pinned')
-        if pdropped:
-            raise vlib.Infra('pinned witness not runnable')
+    pscs = scs[len(scs) - npin:] if npin else []
+    scs = [s for s in scs[:len(scs) - npin] if not s['known']]
     allscs = scs + pscs
     for i, s in enumerate(allscs):
         s['id'] = i
